@@ -461,6 +461,7 @@ def run_contract(contract, xcheck=True, goal_timeout_ms=8000):
     rep.error = f'resolve: {e!r}'
     return rep
   ex = I.Explorer(max_paths=contract.max_paths, goal_timeout_ms=goal_timeout_ms)
+  ex.model_hook = model_from_z3
   policy = make_policy(contract, REGISTRY)
   ensures = contract.clauses('ensures_')
   exc_iff = contract.clauses('exc_iff_')
@@ -518,7 +519,8 @@ def run_contract(contract, xcheck=True, goal_timeout_ms=8000):
           rep.unknown_calls.add(e.what)
         else:
           rep.called.add(e.what)
-    model0 = model_from_z3(path, path.solver.model()) if sat == z3.sat else None
+    zm = I.safe_model(path.solver) if sat == z3.sat else None
+    model0 = model_from_z3(path, zm) if zm is not None else None
     if outcome[0] == 'return':
       rep.returns += 1
       env['result'] = outcome[1]
@@ -532,8 +534,8 @@ def run_contract(contract, xcheck=True, goal_timeout_ms=8000):
         z = interp.truth_z(r)
         ex.check_goal(path, contract.oblig('POST', cname), z)
       for cname, fn in contract.clauses('trace_'):
-        ok = fn(path.events, outcome)
-        ex.check_goal(path, contract.oblig('TRACE', cname), bool(ok),
+        ok = fn(path.events, outcome, interp, env)
+        ex.check_goal(path, contract.oblig('TRACE', cname), _zb(ok),
                       info=_events_info(path.events))
     else:
       exc = outcome[1]
@@ -554,18 +556,12 @@ def run_contract(contract, xcheck=True, goal_timeout_ms=8000):
             r = call_clause(interp, fn, env)
             ex.check_goal(path, contract.oblig('EXC', cname), interp.truth_z(r))
       for cname, fn in contract.clauses('trace_'):
-        ok = fn(path.events, outcome)
-        ex.check_goal(path, contract.oblig('TRACE', cname), bool(ok),
+        ok = fn(path.events, outcome, interp, env)
+        ex.check_goal(path, contract.oblig('TRACE', cname), _zb(ok),
                       info=_events_info(path.events))
       if not matched:
         ex.check_goal(path, contract.oblig('EXC', 'unexpected'), False,
                       info=f'raises {exc.cls.__name__} {exc.args!r}')
-    # attach python-level models to failures of this path
-    for rec in ex.results[reset_mark:]:
-      if rec['status'] == 'failed' and 'model' in rec:
-        rec['pymodel'] = Model(
-            {k: _parse_model_value(v) for k, v in rec['model'].items()},
-            dict(path.notes.get('choices', {})))
     # cross-check this path against CPython
     if xcheck and model0 is not None:
       _xcheck(contract, rep, model0, outcome, path)
@@ -588,6 +584,14 @@ def run_contract(contract, xcheck=True, goal_timeout_ms=8000):
   rep.axioms = set(axioms.USED)
   rep.wall_s = time.time() - t0
   return rep
+
+
+def _zb(v):
+  if isinstance(v, SBool):
+    return v.z
+  if isinstance(v, z3.BoolRef):
+    return v
+  return bool(v)
 
 
 def _events_info(events):
@@ -646,7 +650,9 @@ def _xcheck(contract, rep, model, outcome, path):
       rep.xcheck_mismatch.append(
           f'symbolic result {sym!r} vs native {got[1]!r}; model={model.to_json()}')
   elif isinstance(sym, (SBool, SInt)) and isinstance(got[1], (bool, int)):
-    m = path.solver.model()
+    m = I.safe_model(path.solver)
+    if m is None:
+      return
     v = m.eval(sym.z, model_completion=True)
     pv = _pyval(v, m)
     if pv != got[1]:
